@@ -281,8 +281,37 @@ impl Prop for Mutated {
     const BYTES: usize = 320;
     fn gen(u: &mut Unstructured<'_>) -> arbitrary::Result<Case> {
         const HOSTILE: &[&str] = &["0", "1", "9", "-", "+", ":", ".", "a", "Z", "T", "'", "''", "é", "日", "😀", " ", "\u{0}", "\t", "\u{a0}", "/", "*", ","];
-        let family = u.int_in_range(0..=9u8)?;
+        let family = u.int_in_range(0..=10u8)?;
         let (api, mut pattern, mut input): (u8, String, String) = match family {
+            10 => {
+                // long fields: one symbol repeated up to 40 times (optionally two fields), filled with
+                // a mix of digits and 1-4 byte characters, so that a single field spans 16/32/64/128
+                // bytes at a non-boundary; every parser slice and every error message sees it
+                const FILL: &[&str] = &["0", "1", "9", "-", "+", "a", "é", "ß", "€", "日", "𝄞", "😀"];
+                let kind = *u.choose(&[Kind::Date, Kind::Time, Kind::DateTime])?;
+                let syms = c11::syms_of(kind);
+                let mut pattern = String::new();
+                let mut input = String::new();
+                for _ in 0..u.int_in_range(1..=2u8)? {
+                    let sym = *u.choose(&syms)?;
+                    let w = if u.ratio(1, 2)? { u.int_in_range(1..=40usize)? } else { *u.choose(&[7usize, 8, 9, 10, 11, 12, 15, 16, 17, 31, 32, 33])? };
+                    for _ in 0..w {
+                        pattern.push(sym);
+                    }
+                    let n = (w as i64 + u.range_i64(-1, 1)?).max(0) as usize;
+                    let (a, b) = (*u.choose(FILL)?, *u.choose(FILL)?);
+                    let lead = u.int_in_range(0..=3usize)?;
+                    for i in 0..n {
+                        input.push_str(if i < lead { a } else if u.ratio(1, 8)? { *u.choose(FILL)? } else { b });
+                    }
+                }
+                let api = match kind {
+                    Kind::Date => 0,
+                    Kind::Time => 1,
+                    Kind::DateTime => 2,
+                };
+                (api, pattern, input)
+            }
             0..=4 => {
                 // C11 / C12 pattern with its own formatted output
                 let kind = *u.choose(&[Kind::Date, Kind::Time, Kind::DateTime])?;
@@ -326,7 +355,7 @@ impl Prop for Mutated {
             }
         };
         // 0..=3 random edits
-        let edits = if family == 7 { 0 } else { u.int_in_range(0..=3u8)? };
+        let edits = if family == 7 { 0 } else if family == 10 { u.int_in_range(0..=1u8)? } else { u.int_in_range(0..=3u8)? };
         for _ in 0..edits {
             let target_pattern = !pattern.is_empty() && u.ratio(1, 3)?;
             let s: &mut String = if target_pattern { &mut pattern } else { &mut input };
